@@ -112,7 +112,13 @@ func Observation(o *cdc.Outcome) string {
 	case "none":
 		res = "ok:" + lang.RenderValue(o.Value)
 	default:
-		res = o.Class + ":" + Kind(o.Kind)
+		class := o.Class
+		if strings.HasSuffix(o.Kind, "ExternalNonError") {
+			// a non-error panic raised inside a host (runtime.Interface) callback — here: a callback the
+			// test host does not implement.  That is a host failure, not an internal error of Cadence.
+			class = "external"
+		}
+		res = class + ":" + Kind(o.Kind)
 	}
 	logs := make([]string, len(o.Logs))
 	for i, l := range o.Logs {
